@@ -102,6 +102,8 @@ func vfDiscDocNum(a string) int {
 		return 2
 	case "doc3":
 		return 3
+	case "doc4":
+		return 4
 	case "partial":
 		return 9
 	}
@@ -148,6 +150,11 @@ func (p *vfDiscProvider) docJSON(key, a string) []byte {
 	case "partial":
 		m["issuer"] = p.fieldURL(key, k, 0)
 		m["jwks_uri"] = p.fieldURL(key, k, 3)
+	case "doc4": // a complete document of a provider without revocation and end-session endpoints
+		m["issuer"] = p.fieldURL(key, k, 0)
+		m["authorization_endpoint"] = p.fieldURL(key, k, 1)
+		m["token_endpoint"] = p.fieldURL(key, k, 2)
+		m["jwks_uri"] = p.fieldURL(key, k, 3)
 	default:
 		m["issuer"] = p.fieldURL(key, k, 0)
 		m["authorization_endpoint"] = p.fieldURL(key, k, 1)
@@ -165,7 +172,7 @@ func (p *vfDiscProvider) fieldID(key, s string) int {
 	if s == "" {
 		return 0
 	}
-	for _, k := range []int{1, 2, 3, 9} {
+	for _, k := range []int{1, 2, 3, 4, 7, 9} {
 		for f := 0; f < 6; f++ {
 			if s == p.fieldURL(key, k, f) {
 				return 10*k + f + 1
@@ -182,7 +189,7 @@ func (p *vfDiscProvider) locID(key, loc string) int {
 	if i := strings.IndexByte(loc, '?'); i >= 0 {
 		loc = loc[:i]
 	}
-	for _, k := range []int{1, 2, 3} {
+	for _, k := range []int{1, 2, 3, 4} { // authorization endpoints of real documents only (not the typed-wrong answer's)
 		if loc == p.fieldURL(key, k, 1) {
 			return 10*k + 2
 		}
@@ -359,6 +366,10 @@ func (p *vfDiscProvider) handle(w http.ResponseWriter, r *http.Request) {
 			c.Write(body[:len(body)/2])
 			c.Close()
 		}
+	case "typedwrong": // well-formed JSON, 200, but one member has the wrong type: not a usable document (and it names endpoints of its own)
+		w.Header().Set("Content-Type", "application/json")
+		fmt.Fprintf(w, `{"issuer":%q,"authorization_endpoint":%q,"token_endpoint":["x"],"jwks_uri":%q,"revocation_endpoint":%q,"end_session_endpoint":%q}`,
+			p.fieldURL(in.key, 7, 0), p.fieldURL(in.key, 7, 1), p.fieldURL(in.key, 7, 3), p.fieldURL(in.key, 7, 4), p.fieldURL(in.key, 7, 5))
 	case "stallbody": // headers and the beginning of the document at once, then nothing: only an overall timeout ends such a fetch
 		w.Header().Set("Content-Type", "application/json")
 		w.WriteHeader(200)
@@ -734,6 +745,9 @@ func vfDiscCorpus() []*vfDiscCase {
 		// first document differs from the later one
 		{Kind: "two-docs", TimeoutMs: vfDiscTimeoutMs, Script: []string{"e503", "doc2"}, Healthy: "doc1", Pre: vfDiscStdPre(1),
 			Ops: append(vfDiscServe3(), vfDiscOp{O: "shift", Min: 59}, vfDiscOp{O: "refresh"}, g, vfDiscOp{O: "shift", Min: 2}, vfDiscOp{O: "refresh"}, g)},
+		// a 200 answer with a wrongly typed member is a failure; the healthy document after it has FEWER endpoints
+		{Kind: "typed-wrong-then-smaller-doc", TimeoutMs: vfDiscTimeoutMs, Script: []string{"typedwrong"}, Healthy: "doc4", Pre: vfDiscStdPre(1),
+			Ops: []vfDiscOp{g, x, {O: "shift", Min: 61}, {O: "refresh"}, g}},
 		// the DEFAULT client (no HTTPClient configured) against a provider that sends headers and then stalls the body
 		{Kind: "default-client-stall", DefaultClient: true, Script: []string{"stallbody"}, Healthy: "doc1",
 			Pre: []vfDiscReq{{At: "start", Path: "gated", PatienceMs: 40}, {At: "start", Path: "excluded", PatienceMs: 40}}, Ops: []vfDiscOp{g, x}},
